@@ -124,6 +124,12 @@ def run_case(prop, case, spec, scratch, stats):
             if ev:
                 stats["m2_suspicious_events"] += len(ev)
                 forced = True
+            nxt = ops[i + 1]["op"] if i + 1 < len(ops) else None
+            if nxt in ("clear", "reopen") and not forced and rng.random() < 0.7:
+                # do not look at the index between a write and a clear / close: a monitor that
+                # reads (or flushes) here would hide defects that need pending buffered writes
+                stats["unobserved_write_then_%s" % nxt] += 1
+                continue
             if "C19" in props and op["op"] not in ("reopen", "clear"):
                 tl, ll = sut.store_lengths()
                 stats["C19_per_op_sizes"] += 1
